@@ -98,4 +98,59 @@ theorem discount_last_wins (r1 r2 : List Str) (raw : Str) (p' : Pre) (lines : Li
   refine ⟨t, ht, ?_⟩
   rw [this, hq]; exact hdv
 
+/-! ### declared names map to their positions -/
+
+/-- the map `extractIDs` builds from a name list -/
+def buildMap (ids : List Str) : IDMap :=
+  (enumFrom 0 ids).foldl (fun m (p : Nat × Str) => m.set (trim p.2) p.1) []
+
+theorem find_set_self (m : IDMap) (k : Str) (v : Nat) : (m.set k v).find k = some v := by
+  simp [IDMap.set, IDMap.find]
+
+theorem find_set_ne (m : IDMap) (k x : Str) (v : Nat) (h : k ≠ x) : (m.set k v).find x = m.find x := by
+  have : (k == x) = false := by simpa using h
+  simp [IDMap.set, IDMap.find, this]
+
+theorem fold_find_notin (l : List Str) (m0 : IDMap) (k : Nat) (x : Str) (h : x ∉ l.map trim) :
+    ((enumFrom k l).foldl (fun m (p : Nat × Str) => m.set (trim p.2) p.1) m0).find x = m0.find x := by
+  induction l generalizing m0 k with
+  | nil => rfl
+  | cons y t ih =>
+    simp only [List.map_cons, List.mem_cons, not_or] at h
+    simp only [enumFrom, List.foldl_cons]
+    rw [ih _ _ h.2, find_set_ne _ _ _ _ (fun e => h.1 e.symm)]
+
+theorem fold_find_at (l : List Str) (m0 : IDMap) (k : Nat) (hnd : (l.map trim).Nodup) (j : Nat) (hj : j < l.length) :
+    ((enumFrom k l).foldl (fun m (p : Nat × Str) => m.set (trim p.2) p.1) m0).find (trim l[j]) = some (k + j) := by
+  induction l generalizing m0 k j with
+  | nil => simp at hj
+  | cons y t ih =>
+    simp only [List.map_cons, List.nodup_cons] at hnd
+    simp only [enumFrom, List.foldl_cons]
+    cases j with
+    | zero =>
+      simp only [List.getElem_cons_zero, Nat.add_zero]
+      rw [fold_find_notin _ _ _ _ hnd.1, find_set_self]
+    | succ j =>
+      simp only [List.getElem_cons_succ]
+      rw [ih _ _ hnd.2 j (by simpa using hj)]
+      congr 1; omega
+
+/-- **names resolve to their positions**: in a declaration with pairwise distinct names, the i-th name is bound to i
+    (so writing the name or the number i selects the same index — `name_number_interchangeable`) -/
+theorem buildMap_find (ids : List Str) (hnd : (ids.map trim).Nodup) (i : Nat) (hi : i < ids.length) :
+    (buildMap ids).find (trim ids[i]) = some i := by
+  have := fold_find_at ids [] 0 hnd i hi
+  simpa [buildMap] using this
+
+/-- what `extractIDs` returns for a declaration that is not a single number: the name count and `buildMap` -/
+theorem extractIDs_named (line t1 : Str) (h1 : at? (tokenize colon line) 1 = .ok t1)
+    (hmany : (tokenize space t1).length ≠ 1) :
+    extractIDs line = .ok ((tokenize space t1).length, buildMap (tokenize space t1)) := by
+  unfold extractIDs
+  simp only [h1, bind, Except.bind]
+  split
+  · rename_i one heq; rw [heq] at hmany; simp at hmany
+  · rfl
+
 end AITB.Cassandra
